@@ -19,7 +19,7 @@ fn gen_scalar(u: &mut Choices) -> V {
     match u.weighted(&[6, 3, 2, 1, 1]) {
         0 => V::Str(STRINGS[u.below(STRINGS.len())].to_string()),
         1 => V::Int(*u.pick(&[0i64, 1, -1, 443, 10, i64::MAX, i64::MIN, 1234567890123])),
-        2 => V::Float(*u.pick(&[0.5f64, 1.5, 2.0, 1e308, 5e-324, -1.5, 1e-7, 10.25, -0.0, 123456.789])),
+        2 => V::Float(*u.pick(&[0.5f64, 1.5, 2.0, 1e308, 5e-324, -1.5, 1e-7, 10.25, -0.0, 123456.789, 1e22, 2.5e16, 1.5e20, -3e21])),
         3 => V::Bool(u.chance(1, 2)),
         _ => V::Null,
     }
